@@ -18,6 +18,8 @@ def run(ctx, rep):
     frontend.rule_bulk_paths_keep_token_grammar(ctx, rep, "C13-R12")
     frontend.rule_unary_before_exponent_rejected(ctx, rep, "C13-R13")
     frontend.rule_nested_array_element_continues(ctx, rep, "C13-R14")
+    frontend.rule_decimal_point_needs_no_digits(ctx, rep, "C13-R15")
+    frontend.rule_new_callee_is_member_expression(ctx, rep, "C13-R16")
     rep.undecided += [
         "layout independence and print/parse round trip over all token sequences (no printer exists in the repo; generative/differential property)",
         "alternative literal spellings denote the same value (value property)",
